@@ -21,6 +21,13 @@ def gen_cases(r, tier):
     for _ in range(300):
         f = fn(); j = f + (r.randrange(-R27, R27) & ~3)
         if j > 0: cases.append(("exec", f, j, r.getrandbits(r.choice([16, 32, 48, 64])) | 1))
+    # (2b) far displacements that are congruent to an in-range one modulo a power of two (2^28 .. 2^44 bytes): a range test made on a
+    # truncated value would accept them; they must be refused (Linux) exactly like any other far displacement
+    for b in (28, 29, 30, 31, 32, 33, 34, 35, 36, 38, 40, 44):
+        for _ in range(6 if tier == "quick" else 200):
+            f = r.randrange(1 << 45, 1 << 46) & ~3; m = r.choice([-3, -2, -1, 1, 2, 3]); e = r.choice([0, 4, -4, 0x1000, -0x1000, r.randrange(-R27 + 8, R27 - 8) & ~3])
+            j = f + m * (1 << b) + e
+            if 0x10000 < j < (1 << 47): cases.append(("exec", f, j, r.getrandbits(48) | 1))
     # (3) pc/target pairs to +-4 GiB (macOS long form), page-edge offsets
     for _ in range(400 if tier == "quick" else 20000):
         f = (r.randrange(0x200000000, 0x7fff00000000) & ~0xfff) + r.choice([0, 4, 0xff8, 0xffc, r.randrange(0, 4096) & ~3])
@@ -52,7 +59,7 @@ def render(dec, pc=None):
 def run(res, tier, seed, replay):
     res.corr_diffs, res.unknown = [], []
     res.cov["rule"] = ("sim (unmodified arm64_codegenerator.rs / utils.rs / patch_arm64.rs compiled on the host, Linux and macOS cfg variants): every 16-bit chunk value in each of the 4 positions of the fake address (thorough: all 65 536 x 4; quick: edge values + 600 random), "
-                       "entry displacements at every word within +-40 bytes of +-128 MiB and random inside/outside, pc/target pairs up to +-8 GiB with page-edge offsets for the macOS long form, both boolean values; bytes vs the extracted EncArm64 model; "
+                       "entry displacements at every word within +-40 bytes of +-128 MiB and random inside/outside, far displacements congruent to an in-range one modulo 2^28..2^44, pc/target pairs up to +-8 GiB with page-edge offsets for the macOS long form, both boolean values; bytes vs the extracted EncArm64 model; "
                        "monitor: the implementation's bytes executed with the extracted A64 semantics must reach exactly the trampoline and then exactly the fake writing only x9/x16 (x0 for the boolean); every distinct instruction word is also disassembled with llvm-mc and compared with the Coq decoder; "
                        "distinct = distinct (variant, entry form, displacement class, outcome, chunk position)")
     res.cov["trusted_base"] = vlib.TRUSTED_COMMON + ["L0 A64 fragment (coq/A64.v) from the Arm ARM field layouts, cross-checked against llvm-mc-14 on every distinct word observed", "harness/sim shim and build.rs source preparation"]
@@ -90,7 +97,7 @@ def run(res, tier, seed, replay):
                     for o in range(0, len(hx), 8):
                         w = int.from_bytes(bytes.fromhex(hx[o:o + 8]), "little"); words[w] = words.get(w, 0) + 1
                 pdiff = ((c[4] & ~0xfff) - (c[3] & ~0xfff)) >> 12
-                if not (-(1 << 20) <= pdiff < (1 << 20)): continue      # beyond +-4 GiB: outside the quantifier (correspondence only)
+                if variant == "macos" and not (-(1 << 20) <= pdiff < (1 << 20)): continue      # macOS long form beyond +-4 GiB: outside the quantifier (correspondence only); Linux: every displacement is judged
                 if c[2] == "exec":
                     mon.append(f"{cid}j a64reach {ws} {c[3]:x} {c[4]:x}"); mon.append(f"{cid}f a64reach {ws} {c[4]:x} {c[5]:x}")
                 else:
